@@ -31,7 +31,7 @@ REQUIRED_REACH = ['gzip:vary-on-uncompressed', 'mw:gzip', 'mw:cache', 'mw:stats'
                   'kind:http-raised', 'kind:http-returned', 'kind:rendered', 'kind:nonbreaking', 'gzip:compressed',
                   'gzip:not-compressed-by-choice', 'gzip:client-does-not-accept', 'pairs-compared', 'head-compared']
 NSHARDS = 16
-MW_NAMES = ['gzip', 'cache', 'stats', 'profile', 'cookie', 'cookie-expiry', 'cookie-never', 'ctx', 'simplectx', 'getparam',
+MW_NAMES = ['gzip', 'cache', 'stats', 'profile', 'cookie', 'cookie-expiry', 'cookie-never', 'ctx', 'simplectx', 'getparam', 'getparam-typed',
             'postdata', 'scriptroot']
 AE = [None, 'gzip', 'gzip, deflate', 'identity', 'gzip;q=0', '*', 'br', 'deflate, gzip;q=0.5', 'GZIP']
 BIG = ('lorem ipsum dolor sit amet ' * 2000)
@@ -49,7 +49,8 @@ def make_mw(name):
             'cookie-expiry': lambda: SignedCookieMiddleware(secret_key=b'k' * 20, expiry=3600),
             'cookie-never': lambda: SignedCookieMiddleware(secret_key=b'k' * 20, expiry=NEVER),
             'ctx': lambda: ContextProcessor(), 'simplectx': lambda: SimpleContextProcessor(),
-            'getparam': lambda: GetParamMiddleware(['unused_q']), 'postdata': lambda: PostDataMiddleware(['unused_f']),
+            'getparam': lambda: GetParamMiddleware(['unused_q']),
+            'getparam-typed': lambda: GetParamMiddleware({'unused_n': int, 'unused_x': float}), 'postdata': lambda: PostDataMiddleware(['unused_f']),
             'scriptroot': lambda: ScriptRootMiddleware()}[name]()
 
 
@@ -68,6 +69,8 @@ def build_app(stack, rnd_blob):
         Route('/empty', lambda: Response('', mimetype='text/plain')),
         Route('/big', lambda: Response(BIG, mimetype='text/plain')),
         Route('/bigbin', lambda: Response(rnd_blob, mimetype='application/octet-stream')),
+        # compressible bodies whose sizes are exact multiples of common buffer sizes
+        Route('/buf/<n:int>', lambda n: Response((b'0123456789abcdef' * (n // 16 + 1))[:n], mimetype='application/octet-stream')),
         Route('/binary', lambda: Response(bytes(range(256)) * 4, mimetype='application/octet-stream')),
         Route('/html', lambda: Response('<html><body>' + 'é☃ ' * 500 + '</body></html>', mimetype='text/html')),
         Route('/ctx', lambda: {'a': 1, 'b': ['x', 'y'], 'text': 'z' * 3000}, render_basic),
@@ -99,7 +102,8 @@ def build_app(stack, rnd_blob):
 
 REQUESTS = [
     ('text', 'GET', '/text', b''), ('text', 'GET', '/empty', b''), ('text', 'GET', '/big', b''), ('text', 'GET', '/bigbin', b''),
-    ('text', 'GET', '/binary', b''), ('text', 'GET', '/html', b''), ('rendered', 'GET', '/ctx', b''), ('rendered', 'GET', '/json', b''),
+    ('text', 'GET', '/binary', b''), ('text', 'GET', '/buf/65536', b''), ('text', 'GET', '/buf/131072', b''), ('text', 'GET', '/buf/4096', b''),
+    ('text', 'GET', '/buf/8192', b''), ('text', 'GET', '/buf/16384', b''), ('text', 'GET', '/buf/65535', b''), ('text', 'GET', '/buf/1048576', b''), ('text', 'GET', '/html', b''), ('rendered', 'GET', '/ctx', b''), ('rendered', 'GET', '/json', b''),
     ('bare-base', 'GET', '/base', b''), ('bare-base', 'GET', '/base201', b''), ('500', 'GET', '/noresp', b''),
     ('rendered', 'GET', '/ctxkeys', b''), ('rendered', 'GET', '/ctxint', b''),
     ('redirect', 'GET', '/branch', b''), ('redirect', 'GET', '/redirect301', b''), ('http-raised', 'GET', '/raise403', b''),
@@ -129,7 +133,7 @@ def decoded(ex):
 
 
 # query strings: none of them carries the profiler's trigger parameter (_prof)
-QUERIES = ['unused_q=7', 'unused_q=7', '', 'unused_q=7&_prof_sort=calls', '_prof_sort=', '_prof_sort=newest&unused_q=1', '_prof_sort=time',
+QUERIES = ['unused_q=7', 'unused_q=7', '', 'unused_n=12&unused_x=1.5', 'unused_n=abc', 'unused_n=&unused_x=', 'unused_n=1.5&unused_x=1e999', 'unused_n=12abc&UNUSED_N=3', 'unused_q=7&_prof_sort=calls', '_prof_sort=', '_prof_sort=newest&unused_q=1', '_prof_sort=time',
            'page=2&sort=newest', 'unused_q=%FF', 'unused_q=1&unused_q=2', '_profile=1', 'unused_q=', 'callback=cb&unused_q=x', '_prof_limit=abc']
 
 
